@@ -234,7 +234,12 @@ func RunStoreSim(prop string, tr *Trace, sc *Script, rec *Recorder, scratch stri
 				rec.Stats.Inc("reorgs_to_empty")
 			}
 			if prop == "C04" {
-				if v := w.twinCheck(heavy); v != nil {
+				// a quarter of the reorgs are judged only later (at the next check, the next judged reorg or the end of
+				// the run): whatever the node remembers from its last answers before the reorg is then still in place
+				// when the new fork has grown back to the same height
+				if uint64(op.Arg(0)+op.Arg(1))%4 == 1 {
+					rec.Stats.Inc("reorgs_judged_only_later")
+				} else if v := w.twinCheck(heavy); v != nil {
 					return v
 				}
 			}
